@@ -143,6 +143,11 @@ func checkSplit(c splitCase) (o pbt.Outcome) {
 			}
 		}
 	}
+	for _, sg := range segs {
+		if sg.K == sqltok.Code && strings.Contains(text[sg.Start:sg.End], "--") {
+			o.Labels = append(o.Labels, "minus_minus_in_code")
+		}
+	}
 	nsemi := len(sqltok.KindOffsets(segs, sqltok.Semi))
 	o.NonTrivial = len(want) >= 2 && hidden > 0
 	o.Labels = append(o.Labels, fmt.Sprintf("pieces_%d", min(len(want), 5)))
